@@ -1,0 +1,63 @@
+//go:build verif
+
+package putsvc
+
+import (
+	iec "github.com/nspcc-dev/neofs-node/internal/ec"
+	cid "github.com/nspcc-dev/neofs-sdk-go/container/id"
+	"github.com/nspcc-dev/neofs-sdk-go/netmap"
+	oid "github.com/nspcc-dev/neofs-sdk-go/object/id"
+)
+
+// This file exists for the model-based verification harness kept outside the
+// repository (build tag `verif`): [ContainerNodes] mentions a type of an
+// internal package, so an external module cannot implement [NeoFSNetwork].
+
+// VerifPutECRule mirrors internal/ec.Rule.
+type VerifPutECRule struct {
+	DataPartNum   uint8
+	ParityPartNum uint8
+}
+
+// VerifPutContainerNodes is [ContainerNodes] without internal types.
+type VerifPutContainerNodes interface {
+	Unsorted() [][]netmap.NodeInfo
+	SortForObject(oid.ID) ([][]netmap.NodeInfo, error)
+	PrimaryCounts() []uint
+	ECRules() []VerifPutECRule
+}
+
+// VerifPutNetwork is [NeoFSNetwork] without internal types.
+type VerifPutNetwork interface {
+	GetContainerNodes(cid.ID) (VerifPutContainerNodes, error)
+	IsLocalNodePublicKey([]byte) bool
+	GetEpochBlock(epoch uint64) (uint32, error)
+	GetEpochBlockByTime(t uint32) (uint32, error)
+}
+
+type verifPutContainerNodes struct{ VerifPutContainerNodes }
+
+func (x verifPutContainerNodes) ECRules() []iec.Rule {
+	rs := x.VerifPutContainerNodes.ECRules()
+	if len(rs) == 0 {
+		return nil
+	}
+	res := make([]iec.Rule, len(rs))
+	for i := range rs {
+		res[i] = iec.Rule{DataPartNum: rs[i].DataPartNum, ParityPartNum: rs[i].ParityPartNum}
+	}
+	return res
+}
+
+type verifPutNetwork struct{ VerifPutNetwork }
+
+func (x verifPutNetwork) GetContainerNodes(id cid.ID) (ContainerNodes, error) {
+	cn, err := x.VerifPutNetwork.GetContainerNodes(id)
+	if err != nil {
+		return nil, err
+	}
+	return verifPutContainerNodes{cn}, nil
+}
+
+// VerifPutWrapNetwork adapts n to [NeoFSNetwork].
+func VerifPutWrapNetwork(n VerifPutNetwork) NeoFSNetwork { return verifPutNetwork{n} }
